@@ -90,10 +90,17 @@ var serial int64 = 1000
 
 // newCert makes a self-signed certificate for key (subject cn) valid in [nb, na].
 func newCert(cn string, key *rsa.PrivateKey, nb, na time.Time) *KeyPair {
+	ski := sha1.Sum(x509.MarshalPKCS1PublicKey(&key.PublicKey)) // subjectKeyIdentifier as CA tooling derives it
+	return newCertSKI(cn, key, nb, na, ski[:])
+}
+
+// newCertSKI: the subjectKeyIdentifier extension is free-form data chosen by whoever makes the certificate
+func newCertSKI(cn string, key *rsa.PrivateKey, nb, na time.Time, ski []byte) *KeyPair {
 	serial++
 	tmpl := &x509.Certificate{
 		SerialNumber: big.NewInt(serial),
 		Subject:      pkix.Name{CommonName: cn},
+		SubjectKeyId: ski,
 		NotBefore:    nb, NotAfter: na,
 		KeyUsage:              x509.KeyUsageDigitalSignature | x509.KeyUsageKeyEncipherment,
 		BasicConstraintsValid: true,
@@ -114,6 +121,9 @@ type World struct {
 	IdPOld                                     *KeyPair // a store member whose certificate expired before the fake clock (key roll-over leftovers)
 	// "re-issued" certificates: same subject and same key pair as IdP1 / IdPOld, other serial and validity; NOT in any store
 	IdP1Re, IdPOldRe *KeyPair
+	// a LOOK-ALIKE of IdP1's certificate made by the attacker: same subject, same subjectKeyIdentifier, the attacker's own
+	// key pair (anyone can make one: both fields are copied from the public certificate); NOT in any store
+	IdP1Look *KeyPair
 	// a certificate that carries IdP1's name/cert bytes but whose private key is the attacker's cannot
 	// exist (the cert binds the public key); "trusted cert + foreign key" = sign with the attacker key and
 	// embed IdP1's certificate in KeyInfo.
@@ -136,6 +146,8 @@ func getWorld() *World {
 			IdPOldRe: newCert("idp-old", rsaKey("idpold"), certNB, certNA),
 		}
 		world.IdP1Re.Name, world.IdPOldRe.Name = "idp1-reissued(not in store)", "idp-old-reissued(not in store)"
+		world.IdP1Look = newCertSKI("idp1", rsaKey("lookalike"), certNB, certNA, world.IdP1.Cert.SubjectKeyId)
+		world.IdP1Look.Name = "idp1-lookalike(attacker key, copied subject and SKI, not in store)"
 	})
 	return world
 }
